@@ -146,6 +146,11 @@ struct Abstract {
 
 struct St {
     writers: Vec<(String, u64)>,
+    kinds: HashMap<String, String>,
+    flw_len: HashMap<String, u64>,
+    flw_paths: HashMap<String, std::path::PathBuf>,
+    syslog_socks: HashMap<String, std::net::UdpSocket>,
+    dir: std::path::PathBuf,
     specs: HashMap<String, LogSpecification>,
     logger: Option<(Box<dyn Log>, LoggerHandle)>,
     sink: Sink,
@@ -243,7 +248,13 @@ pub fn execute(ctx: &mut Ctx, lines: &[String]) -> Vec<String> {
     let prop = tokens(&lines[0])[2].to_string();
     let err_path = ctx.work.join(format!("errchan-{}.txt", std::process::id()));
     let _ = std::fs::remove_file(&err_path);
+    let dir = ctx.work.join(format!("spec-{}-{}", std::process::id(), ctx.case_no));
     let mut st = St {
+        kinds: HashMap::new(),
+        flw_len: HashMap::new(),
+        flw_paths: HashMap::new(),
+        syslog_socks: HashMap::new(),
+        dir: dir.clone(),
         writers: vec![],
         specs: HashMap::new(),
         logger: None,
@@ -260,6 +271,19 @@ pub fn execute(ctx: &mut Ctx, lines: &[String]) -> Vec<String> {
     };
     let mut out = Vec::with_capacity(lines.len());
     let mut nontrivial = false;
+    // duplication cases run in a child process whose stderr/stdout are captured
+    let dup_ops: Vec<String> = lines.iter().filter(|l| l.starts_with("DUP")).cloned().collect();
+    let mut dup_result: Option<(String, String)> = None;
+    if !dup_ops.is_empty() {
+        std::fs::create_dir_all(&dir).unwrap();
+        let exe = std::env::current_exe().unwrap();
+        let o = std::process::Command::new(exe).arg("child").arg("dup").arg(&dir).args(&dup_ops).output().expect("child");
+        dup_result = Some((String::from_utf8_lossy(&o.stderr).to_string(), String::from_utf8_lossy(&o.stdout).to_string()));
+        if !o.status.success() {
+            ctx.report.fail(&case_id, "dup-child-died", &format!("child exited with {:?}: {}", o.status, String::from_utf8_lossy(&o.stderr)));
+        }
+    }
+    let (mut d_err, mut d_out) = (0u64, 0u64);
     for (li, line) in lines.iter().enumerate() {
         let t = tokens(line);
         let needs_logger = matches!(t[0], "SET" | "PUSH" | "POP" | "PARSENEW" | "PARSEPUSH" | "GRID" | "Q" | "LOG" | "CSTART" | "CFINISH" | "CQUIET");
@@ -283,8 +307,9 @@ pub fn execute(ctx: &mut Ctx, lines: &[String]) -> Vec<String> {
                 st.pending_note = Some((*ok == "ok", fs, rx));
                 "ok".into()
             }
-            ["WRITER", n, c] => {
+            ["WRITER", n, c, rest @ ..] => {
                 st.writers.push((unhexs(n).unwrap(), c.parse().unwrap()));
+                st.kinds.insert(unhexs(n).unwrap(), rest.first().map_or("rec0".to_string(), |k| k.to_string()));
                 "ok".into()
             }
             ["BUILD", id, fs, rx] => {
@@ -412,7 +437,28 @@ pub fn execute(ctx: &mut Ctx, lines: &[String]) -> Vec<String> {
                     .error_channel(flexi_logger::ErrorChannel::File(st.err_path.clone()))
                     .panic_if_error_channel_is_broken(false);
                 for (n, c) in &st.writers {
-                    lg = lg.add_writer(n.clone(), Box::new(RecWriter { name: n.clone(), ceiling: lf(*c), sink: st.sink.clone() }));
+                    match st.kinds.get(n).map(String::as_str) {
+                        Some("flw") => {
+                            std::fs::create_dir_all(&st.dir).unwrap();
+                            let fs = flexi_logger::FileSpec::default().directory(&st.dir).basename(format!("w{}", st.flw_paths.len())).suppress_timestamp();
+                            st.flw_paths.insert(n.clone(), fs.as_pathbuf(None));
+                            let w = flexi_logger::writers::FileLogWriter::builder(fs).max_level(lf(*c)).format(crate::props::flw::raw_format).try_build().unwrap();
+                            lg = lg.add_writer(n.clone(), Box::new(w));
+                        }
+                        Some("syslog") => {
+                            let server = std::net::UdpSocket::bind("127.0.0.1:0").unwrap();
+                            server.set_nonblocking(true).unwrap();
+                            let addr = server.local_addr().unwrap().to_string();
+                            let conn = flexi_logger::writers::SyslogConnection::try_udp("127.0.0.1:0".to_string(), addr).unwrap();
+                            let w = flexi_logger::writers::SyslogWriter::builder(conn, flexi_logger::writers::SyslogLineHeader::Rfc5424("fvh".to_owned()), flexi_logger::writers::SyslogFacility::LocalUse0)
+                                .max_log_level(lf(*c)).build().unwrap();
+                            st.syslog_socks.insert(n.clone(), server);
+                            lg = lg.add_writer(n.clone(), w);
+                        }
+                        _ => {
+                            lg = lg.add_writer(n.clone(), Box::new(RecWriter { name: n.clone(), ceiling: lf(*c), sink: st.sink.clone() }));
+                        }
+                    }
                 }
                 let built = lg.build().expect("build");
                 st.logger = Some(built);
@@ -476,6 +522,22 @@ pub fn execute(ctx: &mut Ctx, lines: &[String]) -> Vec<String> {
                 let g = lfn(log::max_level());
                 oracle_gate(ctx, &case_id, li, &st, g);
                 format!("{} gate={g}", if ok { "ok" } else { "err" })
+            }
+            ["DUPINIT", e, o] => { d_err = e.parse().unwrap(); d_out = o.parse().unwrap(); "ok".into() }
+            ["DUPADAPT", which, d] => { if *which == "err" { d_err = d.parse().unwrap(); } else { d_out = d.parse().unwrap(); } "ok".into() }
+            ["DUPLOG", lvl, msg] => {
+                let l: u64 = lvl.parse().unwrap();
+                let marker = unhexs(msg).unwrap();
+                let (se, so) = dup_result.as_ref().unwrap();
+                let (e, o) = (se.contains(&marker), so.contains(&marker));
+                ctx.report.count("op.DUPLOG");
+                nontrivial = true;
+                // oracle: duplicated exactly when the level is at or above the duplication level
+                let want = |d: u64| d == 6 || (d >= 1 && l <= d);
+                if e != want(d_err) || o != want(d_out) {
+                    ctx.report.fail(&case_id, "duplication", &format!("line {li}: level {l}, duplicate_to_stderr={d_err}, duplicate_to_stdout={d_out}: duplicated to stderr={e}, stdout={o}"));
+                }
+                format!("err={} out={}", e as u8, o as u8)
             }
             ["CSTART", tid, id] => {
                 if !st.specs.contains_key(*id) {
@@ -608,7 +670,8 @@ pub fn execute(ctx: &mut Ctx, lines: &[String]) -> Vec<String> {
                         .level(level(l)).target(&tg).module_path(module.as_deref())
                         .args(format_args!("{}", msg)).build());
                 }));
-                // Q before LOG for the enabled-query oracle
+                let unknown_now = err_count(&st.err_path, "bad writer spec");
+                // the enabled() query for the oracle (it reports unknown names once more)
                 let q = catch_unwind(AssertUnwindSafe(|| {
                     let md = log::Metadata::builder().level(level(l)).target(&tg).build();
                     lg.enabled(&md)
@@ -619,10 +682,37 @@ pub fn execute(ctx: &mut Ctx, lines: &[String]) -> Vec<String> {
                     let got = st.sink.lock().unwrap().clone();
                     let default = got.iter().any(|(n, _, _)| n == "_primary");
                     let ws: Vec<String> = got.iter().filter(|(n, _, _)| n != "_primary").map(|(n, _, _)| format!("w{}", hexs(n))).collect();
-                    // a writer emits what it receives up to its ceiling (as FileLogWriter does)
-                    let emitted: Vec<String> = got.iter().filter(|(n, lv, _)| n != "_primary"
-                        && st.writers.iter().any(|(wn, c)| wn == n && *lv <= *c)).map(|(n, _, _)| n.clone()).collect();
-                    let unknown = err_count(&st.err_path, "bad writer spec") - unknown_before;
+                    // which writers emitted the record (in registration order for the provided kinds)
+                    let mut emitted: Vec<String> = Vec::new();
+                    for (n, _, _) in got.iter().filter(|(n, _, _)| n != "_primary") {
+                        let k = st.kinds.get(n).map(String::as_str).unwrap_or("rec0");
+                        // "rec0": a recording writer that honours its ceiling like FileLogWriter (C02 cases);
+                        // "rec": a custom writer that emits whatever it receives
+                        if k == "rec" || st.writers.iter().any(|(wn, c)| wn == n && l <= *c) { emitted.push(n.clone()); }
+                    }
+                    let mut provided: Vec<String> = Vec::new();
+                    for (n, p) in &st.flw_paths {
+                        let len = std::fs::metadata(p).map(|m| m.len()).unwrap_or(0);
+                        let before = st.flw_len.get(n).copied().unwrap_or(0);
+                        if len > before { provided.push(n.clone()); }
+                        st.flw_len.insert(n.clone(), len);
+                    }
+                    for (n, sock) in &st.syslog_socks {
+                        let mut buf = [0u8; 2048];
+                        let mut any = false;
+                        while sock.recv(&mut buf).is_ok() { any = true; }
+                        if any { provided.push(n.clone()); }
+                    }
+                    let has_provided = !st.flw_paths.is_empty() || !st.syslog_socks.is_empty();
+                    // oracle C13: no provided writer emits above its ceiling
+                    for n in &provided {
+                        if let Some((_, c)) = st.writers.iter().find(|(wn, _)| wn == n) {
+                            if l > *c {
+                                ctx.report.fail(&case_id, "writer-above-ceiling", &format!("line {li}: writer {n:?} ({}) with max level {c} emitted a record of level {l}", st.kinds[n]));
+                            }
+                        }
+                    }
+                    let unknown = unknown_now - unknown_before;
                     // oracle C02 (plain targets): passed on iff enabled by the active spec and regex matches
                     let intended = st.abs.active.as_ref().and_then(|id| st.abs.intended.get(id)).cloned().flatten();
                     if !tg.starts_with('{') {
@@ -644,11 +734,44 @@ pub fn execute(ctx: &mut Ctx, lines: &[String]) -> Vec<String> {
                         }
                     }
                     // enabled() never false for a record that is written
-                    if (default || !emitted.is_empty()) && q == Some(false) {
+                    let honouring_emitted = emitted.iter().any(|n| st.kinds.get(n).map(String::as_str) != Some("rec")) || !provided.is_empty();
+                    // (the `{.., _Default}` part of this statement is C02's known finding; it is evaluated for C02 only)
+                    if prop == "C02" && (default || honouring_emitted) && q == Some(false) {
                         ctx.report.fail(&case_id, &format!("enabled-false-but-written{}", if tg.starts_with('{') { "-brace" } else { "" }), &format!(
                             "line {li}: target {tg:?} level {l}: enabled()=false but the record was written (default={default}, writers={emitted:?})"));
                     }
-                    format!("default={} to={} unknown={unknown}", if default { 1 } else { 0 }, if ws.is_empty() { "-".to_string() } else { ws.join(",") })
+                    if has_provided || st.kinds.values().any(|k| k == "rec") {
+                        // C13 cases: receipts of custom writers, emissions of all, in brace-list order
+                        let recv: Vec<String> = got.iter().filter(|(n, _, _)| n != "_primary" && st.kinds.get(n).map(String::as_str) == Some("rec")).map(|(n, _, _)| format!("w{}", hexs(n))).collect();
+                        let inner = if tg.starts_with('{') { tg.get(1..tg.len() - 1).unwrap_or_default().to_string() } else { String::new() };
+                        let mut em: Vec<String> = Vec::new();
+                        for n in inner.split(',') {
+                            let cnt_rec = emitted.iter().filter(|e| e.as_str() == n).count();
+                            if provided.iter().any(|p| p == n) { em.push(format!("w{}", hexs(n))); }
+                            else if cnt_rec > 0 { em.push(format!("w{}", hexs(n))); if let Some(pos) = emitted.iter().position(|e| e == n) { emitted.remove(pos); } }
+                        }
+                        // oracle C13: exactly once to each registered writer named (distinct names), to no other
+                        let names: Vec<&str> = inner.split(',').collect();
+                        let distinct = names.iter().all(|n| names.iter().filter(|x| x == &n).count() == 1);
+                        if tg.starts_with('{') && distinct {
+                            for (wn, _) in &st.writers {
+                                if st.kinds.get(wn).map(String::as_str) == Some("rec") {
+                                    let cnt = got.iter().filter(|(n, _, _)| n == wn).count();
+                                    let want = usize::from(names.contains(&wn.as_str()));
+                                    if cnt != want {
+                                        ctx.report.fail(&case_id, "brace-delivery", &format!("line {li}: target {tg:?}: writer {wn:?} received the record {cnt} time(s), expected {want}"));
+                                    }
+                                }
+                            }
+                            let want_default = names.contains(&"_Default");
+                            if default && !want_default {
+                                ctx.report.fail(&case_id, "brace-default", &format!("line {li}: target {tg:?} reached the default channel without _Default in the list"));
+                            }
+                        }
+                        format!("default={} to={} unknown={unknown} emitted={}", if default { 1 } else { 0 }, if recv.is_empty() { "-".to_string() } else { recv.join(",") }, if em.is_empty() { "-".to_string() } else { em.join(",") })
+                    } else {
+                        format!("default={} to={} unknown={unknown}", if default { 1 } else { 0 }, if ws.is_empty() { "-".to_string() } else { ws.join(",") })
+                    }
                 }
             }
             _ => format!("bad-op {line}"),
@@ -669,6 +792,7 @@ pub fn execute(ctx: &mut Ctx, lines: &[String]) -> Vec<String> {
     }
     let _ = prop;
     let _ = std::fs::remove_file(&st.err_path);
+    let _ = std::fs::remove_dir_all(&st.dir);
     out
 }
 
@@ -904,7 +1028,9 @@ pub fn gen_c02(tier: &str, seed: u64) -> Vec<Vec<String>> {
         // brace targets with registered writers: gate/enabled query vs delivery (ceiling strictly above the level)
         for w in &wnames {
             let l = r.range(1, 5);
-            let tg = if r.chance(1, 2) { format!("{{{w}}}") } else { format!("{{{w},_Default}}") };
+            // `_Default` next to a writer is kept out of the random stream: enabled() judges such a
+            // target on the target string (known finding C02-default-in-braces, directed corpus case)
+            let tg = if r.chance(1, 2) { format!("{{{w}}}") } else { format!("{{{w},Unknown}}") };
             let mt = rx.as_ref().map_or(true, |x| regex::Regex::new(x).unwrap().is_match("x"));
             c.push(format!("LOG {l} {} m{} {} {}", hexs(&tg), hexs("mod1"), if mt { 1 } else { 0 }, hexs("x")));
         }
@@ -1116,4 +1242,95 @@ pub fn gen_c12(tier: &str, seed: u64) -> Vec<Vec<String>> {
         }
     }
     cases
+}
+
+pub fn gen_c13(tier: &str, seed: u64) -> Vec<Vec<String>> {
+    let mut root = Rng::new(seed ^ 0xC13);
+    let mut cases = Vec::new();
+    let n = if tier == "thorough" { 4000 } else { 300 };
+    for k in 0..n {
+        let mut r = root.fork();
+        let mut c = vec![format!("CASE spec C13 {k}")];
+        if r.chance(1, 5) {
+            // duplication table incl. run-time adaptation (child process captures stderr/stdout)
+            c.push(format!("DUPINIT {} {}", r.below(7), r.below(7)));
+            for i in 0..r.range(4, 12) {
+                if r.chance(1, 4) {
+                    c.push(format!("DUPADAPT {} {}", r.pick_s(&["err", "out"]), r.below(7)));
+                }
+                c.push(format!("DUPLOG {} {}", r.range(1, 5), hexs(&format!("dup-marker-{i}-"))));
+            }
+            c.push("END".into());
+            cases.push(c);
+            continue;
+        }
+        let kinds = ["rec", "rec", "flw", "syslog"];
+        let nw = r.range(1, 4);
+        let mut wnames: Vec<String> = Vec::new();
+        for i in 0..nw {
+            let name = format!("W{i}");
+            c.push(format!("WRITER {} {} {}", hexs(&name), r.below(6), r.pick_s(&kinds)));
+            wnames.push(name);
+        }
+        let fs = gen_filters(&mut r, 2);
+        let rx = if r.chance(1, 4) { Some(r.pick_s(&REGEXES).to_string()) } else { None };
+        c.push(format!("BUILD s {} {}", filters_str(&fs), rx.as_ref().map_or("_".into(), |x| format!("r{}", hexs(x)))));
+        c.push("INIT s".into());
+        let modules: Vec<String> = fs.iter().filter_map(|f| f.0.clone()).chain(["other".to_string()]).collect();
+        for _ in 0..r.range(4, 14) {
+            // brace list over registered names, unknown names and _Default, any order; mostly distinct
+            let mut pool: Vec<String> = wnames.clone();
+            pool.push("_Default".into());
+            pool.push("Nope".into());
+            pool.push("".into());
+            let len = r.range(0, 4) as usize;
+            let mut list: Vec<String> = Vec::new();
+            for _ in 0..len {
+                let cand = r.pick(&pool).clone();
+                if !list.contains(&cand) || r.chance(1, 10) { list.push(cand); }
+            }
+            let tg = if r.chance(1, 8) { r.pick(&modules).clone() } else { format!("{{{}}}", list.join(",")) };
+            let l = r.range(1, 5);
+            let msg = r.pick_s(&MSGS).to_string();
+            let mt = rx.as_ref().map_or(true, |x| regex::Regex::new(x).unwrap().is_match(&msg));
+            let module = if r.chance(3, 4) { { let mm: &String = r.pick(&modules[..]); format!("m{}", hexs(mm)) } } else { "_".into() };
+            c.push(format!("LOG {l} {} {module} {} {}", hexs(&tg), mt as u8, hexs(&msg)));
+        }
+        c.push("END".into());
+        cases.push(c);
+    }
+    cases
+}
+
+
+/// child mode: `fvh child dup <dir> <DUP ops...>` — logs through a real Logger with duplication;
+/// the parent captures stderr and stdout
+pub fn child_dup(args: &[String]) {
+    use flexi_logger::Duplicate;
+    let dir = std::path::PathBuf::from(&args[0]);
+    let dup = |d: u64| match d { 0 => Duplicate::None, 1 => Duplicate::Error, 2 => Duplicate::Warn, 3 => Duplicate::Info, 4 => Duplicate::Debug, 5 => Duplicate::Trace, _ => Duplicate::All };
+    let mut built: Option<(Box<dyn Log>, LoggerHandle)> = None;
+    for op in &args[1..] {
+        let t = tokens(op);
+        match t.as_slice() {
+            ["DUPINIT", e, o] => {
+                built = Some(Logger::with(LogSpecification::trace())
+                    .log_to_file(flexi_logger::FileSpec::default().directory(&dir).basename("dup").suppress_timestamp())
+                    .format(crate::props::flw::raw_format)
+                    .duplicate_to_stderr(dup(e.parse().unwrap()))
+                    .duplicate_to_stdout(dup(o.parse().unwrap()))
+                    .build().unwrap());
+            }
+            ["DUPADAPT", which, d] => {
+                let h = &mut built.as_mut().unwrap().1;
+                if *which == "err" { h.adapt_duplication_to_stderr(dup(d.parse().unwrap())).unwrap(); } else { h.adapt_duplication_to_stdout(dup(d.parse().unwrap())).unwrap(); }
+            }
+            ["DUPLOG", lvl, msg] => {
+                let msg = unhexs(msg).unwrap();
+                built.as_ref().unwrap().0.log(&Record::builder().level(level(lvl.parse().unwrap())).target("m").module_path(Some("m")).args(format_args!("{}", msg)).build());
+            }
+            _ => {}
+        }
+    }
+    if let Some((_, h)) = built { h.flush(); drop(h); }
 }
